@@ -23,6 +23,8 @@ type G struct {
 	AllowEmptyStr bool    // generate "" for string / stringArray indexed fields
 	IntWidths     bool    // extras use compact integer widths like a msgpack client
 	NoLattice     bool    // never draw vectors from the small integer lattice (which produces exact distance ties)
+	Line          bool    // euclidean vectors lie on a line (sparse, chain-like graphs: pruning and re-connection paths)
+	lineT         int
 	Vocabulary    []string
 	idCounter     uint64
 	seedTag       uint64
@@ -84,6 +86,14 @@ func (g *G) Vector(dim int, metric string) []float32 {
 			v[i] = float32(float64(v[i]) / math.Sqrt(n))
 		}
 	default:
+		if g.Line && metric == models.DistanceEuclidean {
+			g.lineT++
+			v[0] = float32(10 * (g.lineT % 400))
+			if g.R.IntN(5) == 0 {
+				v[0] = float32(10 * g.R.IntN(g.lineT+1)) // revisit an earlier stretch of the line
+			}
+			return v
+		}
 		lattice := g.R.IntN(8)
 		if g.NoLattice {
 			lattice = 1
